@@ -65,9 +65,10 @@ func (core *JApiCore) collectPathVariables(d *directive.Directive) *jerr.JApiErr
 
 	parentDirective := *d.Parent
 
-	if len(core.rawPathVariables) != 0 {
-		prevParent := core.rawPathVariables[len(core.rawPathVariables)-1].parentDirective
-		if prevParent.Equal(parentDirective) {
+	// One Path directive per parent: whichever Path directives were met in
+	// between, and only for this very parent in the tree.
+	for i := range core.rawPathVariables {
+		if core.rawPathVariables[i].parent == d.Parent {
 			return d.KeywordError(jerr.NotUniqueDirective)
 		}
 	}
@@ -75,6 +76,7 @@ func (core *JApiCore) collectPathVariables(d *directive.Directive) *jerr.JApiErr
 	core.rawPathVariables = append(core.rawPathVariables, rawPathVariable{
 		pathDirective:   *d,
 		parentDirective: parentDirective,
+		parent:          d.Parent,
 		schema:          s,
 		parameters:      pp,
 	})
